@@ -27,12 +27,28 @@ Proof. destruct a, b; simpl; split; intro; try reflexivity; discriminate. Qed.
 Lemma ev_ok_b_spec : forall n pre e, ev_ok_b n pre e = true <-> ev_ok n pre e.
 Proof.
   intros n pre e. unfold ev_ok_b, ev_ok. destruct (ev_ph e).
-  - rewrite !andb_true_iff, orb_true_iff, Nat.leb_le, Nat.leb_le, !Nat.eqb_eq, Nat.ltb_lt. tauto.
+  - rewrite !andb_true_iff, orb_true_iff, Nat.leb_le, Nat.leb_le, !Nat.eqb_eq, Nat.ltb_lt, forallb_forall.
+    assert (F : (forall x, In x (seq 1 (n - ev_stage e)) ->
+                   (ev_item e <=? count_ev (ev_stage e + x) EvEnd pre + x) = true) <->
+                (forall j, 1 <= j -> ev_stage e + j <= n ->
+                   ev_item e <= count_ev (ev_stage e + j) EvEnd pre + j)).
+    { split.
+      - intros H j H1 H2. apply Nat.leb_le. apply H. apply in_seq. lia.
+      - intros H x Hx. apply in_seq in Hx. apply Nat.leb_le. apply H; lia. }
+    rewrite F. tauto.
   - rewrite !andb_true_iff, Nat.leb_le, Nat.leb_le, !Nat.eqb_eq. tauto.
 Qed.
 
 Lemma ev_ok_rev : forall n pre e, ev_ok n (rev pre) e <-> ev_ok n pre e.
-Proof. intros. unfold ev_ok. rewrite !count_ev_rev. tauto. Qed.
+Proof.
+  intros. unfold ev_ok. rewrite !count_ev_rev.
+  assert (F : (forall j, 1 <= j -> ev_stage e + j <= n ->
+                 ev_item e <= count_ev (ev_stage e + j) EvEnd (rev pre) + j) <->
+              (forall j, 1 <= j -> ev_stage e + j <= n ->
+                 ev_item e <= count_ev (ev_stage e + j) EvEnd pre + j)).
+  { split; intros H j H1 H2; specialize (H j H1 H2); rewrite count_ev_rev in *; assumption. }
+  destruct (ev_ph e); [rewrite F|]; tauto.
+Qed.
 
 Lemma trace_ok_aux_spec : forall n tr pre,
   trace_ok_aux n (rev pre) tr = true <->
@@ -139,7 +155,7 @@ Lemma tr_spec_handover : forall n tr, tr_spec n tr -> forall pre i k post,
   tr = pre ++ mkEv i EvBegin k :: post -> 2 <= i -> In (mkEv (pred i) EvEnd k) pre.
 Proof.
   intros n tr HS pre i k post E Hi. pose proof (HS pre _ post E) as HE. unfold ev_ok in HE. simpl in HE.
-  destruct HE as (_ & _ & _ & [H|H]); [lia|].
+  destruct HE as (_ & _ & _ & [H|H] & _); [lia|].
   rewrite E in HS. apply tr_spec_prefix in HS.
   destruct (tr_spec_in_order n pre HS (pred i)) as [_ IE].
   apply in_ends_of. rewrite IE. apply in_seq. lia.
@@ -244,6 +260,18 @@ Section Complete.
   Lemma tinv_init : TInv init.
   Proof. constructor; simpl; [apply tr_spec_nil | intros; split; reflexivity]. Qed.
 
+  (* back-pressure: node i+d has passed on at least (what node i has passed on) - d items *)
+  Lemma cnt_chain : forall st, Inv st -> forall d i, i + d <= S n ->
+    cnt (nodes st i) <= cnt (nodes st (i + d)) + d.
+  Proof.
+    intros st HI. induction d as [|d IH]; intros i Hle.
+    - rewrite !Nat.add_0_r. lia.
+    - specialize (IH i ltac:(lia)).
+      pose proof (I_chan _ _ _ _ HI (i + d) ltac:(lia)) as E.
+      replace (i + S d) with (S (i + d)) by lia.
+      unfold sent, recv in E. destruct (ph (nodes st (S (i + d)))); lia.
+  Qed.
+
   Ltac tcount HT :=
     let j := fresh "j" in let Hj := fresh "Hj" in
     intros j Hj; pose proof (T_count _ HT j Hj); updc; subst;
@@ -266,12 +294,18 @@ Section Complete.
         constructor; simpl.
         * apply tr_spec_snoc; [apply (T_spec _ HT)|].
           unfold ev_ok. simpl. rewrite !count_ev_rev. split; [lia|]. split; [lia|]. split; [lia|].
-          destruct (Nat.eq_dec i 1) as [->|Hne]; [left; reflexivity|right].
-          pose proof (T_count _ HT (pred i) ltac:(lia)) as [_ CE'].
-          rewrite CE'.
-          pose proof (I_chan _ _ _ _ HI (pred i) ltac:(lia)) as E.
-          replace (S (pred i)) with i in E by lia. unfold recv in E. rewrite H2 in E.
-          pose proof (sent_le_ended (nodes st (pred i))). lia.
+          split.
+          { destruct (Nat.eq_dec i 1) as [->|Hne]; [left; reflexivity|right].
+            pose proof (T_count _ HT (pred i) ltac:(lia)) as [_ CE'].
+            rewrite CE'.
+            pose proof (I_chan _ _ _ _ HI (pred i) ltac:(lia)) as E.
+            replace (S (pred i)) with i in E by lia. unfold recv in E. rewrite H2 in E.
+            pose proof (sent_le_ended (nodes st (pred i))). lia. }
+          { intros j Hj1 Hj2. rewrite count_ev_rev.
+            pose proof (T_count _ HT (i + j) ltac:(lia)) as [_ CE'].
+            rewrite CE'.
+            pose proof (cnt_chain st HI j i ltac:(lia)).
+            pose proof (sent_le_ended (nodes st (i + j))) as SE. unfold sent in SE. lia. }
         * intros j Hj. pose proof (T_count _ HT j Hj) as [CB' CE'].
           rewrite !count_ev_cons. unfold ev_match. cbn [ev_stage ev_ph ev_item evphase_eqb].
           updc; subst; unfold begun, ended in *; cbn [ph cnt stat] in *; rwph;
